@@ -427,6 +427,9 @@ def run_wire(ctx, select=None, label="wire", focus="all", extra=None):
         src = next(e for e in events if e["name"] == s["stdinFrom"])
         s["stdin"] = "".join(l + "\n" for l in src["stdout"])
     events += phase(second, "p2")
+    lossy = [e["name"] for e in events if e["drops"] != 0]
+    if lossy:
+        raise vf.Inconclusive("the capturing socket of the harness lost frames in three attempts of %s: nothing can be said about these runs" % lossy)
     byid = {s["id"]: s for s in sc}
     for e in events:
         s = byid[e["id"]]
